@@ -154,7 +154,8 @@ def generate(rng, prop, tier, index):
         sc['fault'] = {'kind': 'MALFORMED', 'where': rng.choice(
             [-1] + list(range(npk))), 'how': rng.choice(
             ['noarg', 'nonstring', 'badopt', 'badoptval', '3args',
-             'optnottable', 'concat'])}
+             'optnottable', 'concat', 'ghost-highbyte',
+             'ghost-highbyte-first'])}
     return sc
 
 
@@ -403,6 +404,16 @@ def expected_block(sc, i, stripped):
 # ---------------------------------------------------------------------------
 # execution
 
+# the code of the cart that OUT holds before the build
+PRIOR_CODES = (
+    'prior_marker=1\n',
+    '-- my game\n-- by someone\nprior_marker=1\n',
+    '--[[ my game\n  second line of the title ]]\n--[[ by\n someone ]]\n'
+    'prior_marker=1\n',
+    '--[==[ my game\nsecond line ]==]\nprior_marker=1\n',
+    'function _update() end\nfunction _draw() end\nrequire("p0")\n',
+)
+
 LOADER_RE = re.compile(r'function\s+require\s*\(')
 HEADER_RE = re.compile(
     r'package\s*\.\s*_c\s*\[\s*(?:"((?:[^"\\]|\\.)*)"|'
@@ -548,7 +559,8 @@ def execute(sc):
         out_rel = 'out/out.p8' + ('.png' if sc['out_fmt'] == 'png' else '')
         if sc.get('out_prior') == 'cart':
             prior = refcodec.cart_from_spec({
-                'code': {'$txt': 'prior_marker=1\n'},
+                'code': {'$txt': PRIOR_CODES[sc.get('out_prior_code', 0) %
+                                             len(PRIOR_CODES)]},
                 'regions': {k: 5 + j for j, k in
                             enumerate(refcodec.REGIONS)}})
             w.put(out_rel, refcodec.encode_any(out_rel, prior))
@@ -566,6 +578,15 @@ def execute(sc):
         expect_fail = err is not None
         if fk == 'MALFORMED' and err is None:
             fk = None          # the malformed call is in an unreachable file
+        if fk == 'MALFORMED' and fault['how'].startswith('ghost'):
+            # (a name of their own: the decoys must not change what any
+            # well-formed require resolves to)
+            wh = fault['where']
+            d = _req_dir_of(sc2, wh if -1 < wh < len(sc2['pkgs']) else -1)
+            for nm in ('ghost.lua', 'ghost'):
+                if not os.path.lexists(w.p(d + nm)):
+                    w.put(d + nm, b'ghost_decoy=1\n')
+            core.bump(res['probes'], 'require-name-with-undecodable-byte')
         if fk == 'ENOENT' and err is None:
             fk = None              # the removed package was not reachable
         if sc.get('rebuild'):
@@ -771,7 +792,9 @@ def check_output(sc, code, table, main_text):
     if any(m.start() > lpos for m in heads):
         return ('loader-before-package', 'a package definition follows the '
                 'loader')
-    if not re.match(r'\s*package\s*=\s*\{', code):
+    # (comments in front of the table are no code)
+    if not re.match(r'(?s)(?:\s*(?:--\[(=*)\[.*?\]\1\]|--[^\n]*(?:\n|$)))*'
+                    r'\s*package\s*=\s*\{', code):
         return ('package-table-missing', 'the code does not start with the '
                 'package table')
     # main program at the very end, unchanged
@@ -823,6 +846,10 @@ def _with_malformed(sc):
         '3args': 'require("p0",{use_game_loop=true},3)',
         'optnottable': 'require("p0",true)',
         'concat': 'require("p".."0")',
+        # a name with a byte that is no character in any encoding of file
+        # names used here; a file with the name minus that byte exists
+        'ghost-highbyte': 'require("ghost\\142")',
+        'ghost-highbyte-first': 'require("\\200ghost")',
     }[how]
     where = fault['where']
     sc2 = dict(sc)
@@ -950,6 +977,9 @@ def generate(rng, prop, tier, index):      # noqa: F811
         sc['rebuild'] = True
     sc['global_flags'] = [[], [], [], ['--debug'], ['-q']][index % 5] \
         if index % 3 == 0 else []
+    sc['out_prior_code'] = index % 7
+    if index % 7 in (2, 3):
+        sc['out_prior'] = 'cart'
     return sc
 
 
